@@ -17,6 +17,7 @@ func init() { register("C09", c09) }
 
 func c09(c *Ctx) {
 	defer c.truncationIsAnError()
+	defer c.listReportsEveryParsedName("R09.12")
 	defer c09pathAgreement(c)
 	defer c09deleteAll(c)
 	defer c09releaseRechecksUnderLock(c)
@@ -1020,4 +1021,96 @@ func c09releaseRechecksUnderLock(c *Ctx) {
 		}
 	}
 	R.Min("R09.11", "recycling steps (table delete / pool put)", n, 2)
+}
+
+// listReportsEveryParsedName (R09.12): listing yields every stored id.
+func (c *Ctx) listReportsEveryParsedName(rule string) {
+	P, R := c.P, c.R
+	R.Explain(rule, "listing yields exactly the stored ids: in package store, after a file name has been turned back into an id (imap.InternalMessageIDFromString), every path to a return of that function appends the id to the listing - the only way past the append is the non-nil edge of a test of the parse error.  Whether a name is reported must not depend on the value of the id (a comparison with the zero id, a prefix, a range): the all-zero UUID is a valid id that Set, Get and Delete accept, and an entry List does not report is never cleaned up at start-up.")
+	n := 0
+	for _, f := range c.funcsInPkg("store") {
+		for _, cs := range engine.Calls(f) {
+			sc := cs.Common().StaticCallee()
+			call, isCall := cs.Instr.(*ssa.Call)
+			if sc == nil || !isCall || cs.Instr.Parent() != f || engine.ShortName(sc) != "InternalMessageIDFromString" || call.Referrers() == nil {
+				continue
+			}
+			var id, perr ssa.Value
+			for _, r := range *call.Referrers() {
+				if ex, ok := r.(*ssa.Extract); ok {
+					if ex.Index == 0 {
+						id = ex
+					} else {
+						perr = ex
+					}
+				}
+			}
+			if id == nil {
+				continue
+			}
+			appends := map[ssa.Instruction]bool{}
+			for _, b := range f.Blocks {
+				for _, in := range b.Instrs {
+					ac, ok := in.(*ssa.Call)
+					if !ok {
+						continue
+					}
+					if _, isApp := engine.IsBuiltinCall(ac, "append"); !isApp || len(ac.Call.Args) < 2 {
+						continue
+					}
+					if engine.AnyBackward(ac.Call.Args[1], engine.FlowOpts{AppendElems: true, Loads: true}, func(x ssa.Value) bool { return x == id }) {
+						appends[in] = true
+					}
+				}
+			}
+			n++
+			cutEdges := map[engine.Edge]bool{}
+			if perr != nil {
+				for _, b := range f.Blocks {
+					iff := engine.IfOf(b)
+					if iff == nil {
+						continue
+					}
+					cond, neg := engine.StripNot(iff.Cond)
+					bo, ok := cond.(*ssa.BinOp)
+					if !ok || (bo.Op != token.NEQ && bo.Op != token.EQL) || !((bo.X == perr && engine.IsNilConst(bo.Y)) || (bo.Y == perr && engine.IsNilConst(bo.X))) {
+						continue
+					}
+					nonNil := 0
+					if bo.Op == token.EQL {
+						nonNil = 1
+					}
+					if neg {
+						nonNil = 1 - nonNil
+					}
+					// the non-nil edge is cut only if it does not lead to the append anyway
+					cutEdges[engine.Edge{From: b, Succ: nonNil}] = true
+				}
+			}
+			bad := ""
+			if len(appends) == 0 {
+				bad = "the parsed id is never appended to a listing"
+			}
+			for _, ret := range engine.Returns(f) {
+				if bad == "" && engine.ReachesAvoidingFrom(call.Block(), engine.InstrIndex(call)+1, ret, appends, cutEdges) {
+					// the cut of the error edge may have hidden a path on which the error was logged and the id appended all the same: re-check without the cut
+					bad = "the return at " + P.Pos(ret.Pos()) + " is reached past the append on a path that is not the failed-parse path"
+				}
+			}
+			if bad != "" && len(appends) > 0 && len(cutEdges) > 0 {
+				// tolerate `if err != nil { log }; append`: with no edge cut, does every path append?
+				all := true
+				for _, ret := range engine.Returns(f) {
+					if engine.ReachesAvoidingFrom(call.Block(), engine.InstrIndex(call)+1, ret, appends, nil) {
+						all = false
+					}
+				}
+				if all {
+					bad = ""
+				}
+			}
+			R.Check(bad == "", rule, c.name(f)+"|every parsed name is listed", P.Pos(cs.Pos()), "only a failed parse can keep a name out of the listing", bad+": whether a stored entry is listed depends on something other than its name being an id")
+		}
+	}
+	R.Min(rule, "file names parsed back into ids in package store", n, 1)
 }
